@@ -125,7 +125,9 @@ func (b *BFS) Run() *BFSResult {
 				rs2 := run(again)
 				for i := 0; i < n; i++ {
 					if rs[i].Err == "" && rs2[i].Err == "" && (rs[i].Key != rs2[i].Key || rs[i].Obs != rs2[i].Obs) {
-						res.HarnessErr = fmt.Sprintf("nondeterministic replay of %v:\n  key1=%s\n  key2=%s\n  obs1=%s obs2=%s", reqs[i].Path, rs[i].Key, rs2[i].Key, rs[i].Obs, rs2[i].Obs)
+						tr := run([]*Request{{Cfg: cfg, Path: reqs[i].Path, Final: final, Trace: true}, {Cfg: cfg, Path: reqs[i].Path, Final: final, Trace: true}})
+						res.HarnessErr = fmt.Sprintf("nondeterministic replay of %v:\n  key1=%s\n  key2=%s\n  obs1=%s obs2=%s\n--- keytext 1\n%s\n--- keytext 2\n%s\n--- trace A\n%s\n--- trace B\n%s", reqs[i].Path, rs[i].Key, rs2[i].Key, rs[i].Obs, rs2[i].Obs, rs[i].KeyText, rs2[i].KeyText,
+							strings.Join(tr[0].Note, "\n"), strings.Join(tr[1].Note, "\n"))
 						return res
 					}
 					res.DeterminismOK++
